@@ -68,15 +68,25 @@ def split_case(seed, cid):
     cmp_pool = [L(S(">="), L(S("f"), S("o1")), gen_core.N(1)), L(S("<"), L(S("g")), gen_core.N(10))]
     ptrees = []
     kp = rng.choice([1, 2, 3])
+    bare = rng.randrange(kp) if kp >= 2 and rng.random() < 0.35 else None
+    consts = {c for c, _ in CONSTS}
     for i in range(kp):
         facts = [f for f in st["facts"] if rng.random() < 0.6]
         fl = [f for f in st["fl"] if rng.random() < 0.6]
         goals = [g for g in goal_pool if rng.random() < 0.6]
         cmps = [c for c in cmp_pool if rng.random() < 0.6]
+        part_objs = objs
+        if i == bare:
+            # an agent file that declares no objects: what it says is about constants and parameterless symbols only
+            part_objs = []
+            facts = [f for f in st["facts"] if set(f[1]) <= consts]
+            fl = [f for f in st["fl"] if set(f[1]) <= consts]
+            goals = [g for g in goal_pool if set(g[1]) <= consts]
+            cmps = [c for c in cmp_pool if "o1" not in str(c)]
         items = [L(S(p), *[S(x) for x in a]) for p, a in facts] + \
                 [L(S("="), L(S(f), *[S(x) for x in a]), {"t": "n", "v": v}) for f, a, v in fl]
         gitems = [L(S(p), *[S(x) for x in a]) for p, a in goals] + cmps
-        ptrees.append(L(S("define"), L(S("problem"), S("cp")), L(S(":domain"), S("dom")), L(S(":objects"), *typed(objs)),
+        ptrees.append(L(S("define"), L(S("problem"), S("cp")), L(S(":domain"), S("dom")), L(S(":objects"), *typed(part_objs)),
                         L(S(":init"), *items), L(S(":goal"), L(S("and"), *gitems))))
     dorder = list(range(k))
     rng.shuffle(dorder)
